@@ -175,7 +175,6 @@ func (s *Sched) Run(root func()) {
 	}
 	s.parked = nil
 	s.mu.Unlock()
-	synctest.Wait()
 }
 
 func trimStack(b []byte) string {
@@ -249,7 +248,6 @@ func (s *Sched) exit(t *Task) {
 	if s.stopping {
 		return
 	}
-	synctest.Wait()
 	s.mu.Lock()
 	if s.stopping {
 		s.mu.Unlock()
@@ -335,6 +333,9 @@ func Yield(site int) {
 
 func yieldSlow(s *Sched, t *Task, site int) {
 	s.Steps++
+	if s.stopping {
+		panic(stopSignal{})
+	}
 	synctest.Wait()
 	s.mu.Lock()
 	if s.stopping {
@@ -391,6 +392,9 @@ func Block(site int) *Task {
 	}
 	t := s.cur
 	s.Steps++
+	if s.stopping {
+		panic(stopSignal{})
+	}
 	synctest.Wait()
 	s.mu.Lock()
 	if s.stopping {
@@ -424,6 +428,9 @@ func Unblock(t *Task) {
 	if s.cur == nil && !s.arbiter {
 		s.arbiter = true
 		s.mu.Unlock()
+		if s.stopping {
+			panic(stopSignal{})
+		}
 		synctest.Wait()
 		s.mu.Lock()
 		s.arbiter = false
@@ -452,6 +459,9 @@ func Acquire(site int, try func() bool) {
 	Yield(site)
 	for !try() {
 		t := s.cur
+		if s.stopping {
+			panic(stopSignal{})
+		}
 		synctest.Wait()
 		s.mu.Lock()
 		if s.stopping {
